@@ -25,6 +25,13 @@ def draw_system(rng, seed: int, prop: str, *, families=("single",) * 6 + ("cross
                allow_mi=not lazy or rng.random() < 0.3)
     if spec.time_ordered:
         lay["allow_nan"] = False
+    # "wide" runs (15 %): more features than n_modes + 10, i.e. outside the regime in which the randomised
+    # solvers are exact whatever their seed - the only regime in which the *handling of seeds* (forwarding,
+    # re-use across fits, ambient RNG) can show. Same backend on both sides, so no solver tolerance is needed.
+    wide = (not lazy) and rng.random() < 0.15 and name not in ("MultiCCA",)
+    cfg["wide"] = wide
+    if wide:
+        lay["max_features"] = 30
     descs: dict = {}
     fits: dict = {}
     new: dict = {}
@@ -75,7 +82,7 @@ def draw_system(rng, seed: int, prop: str, *, families=("single",) * 6 + ("cross
             if (params.get("n_pca_modes") or F) * params["embedding"] > 12:
                 params["solver"] = "full"
     elif fam == "cross":
-        lay["max_features"] = 8
+        lay["max_features"] = 20 if wide else 8
         dx = chunked(space.draw_layout(rng, **lay))
         dy = chunked(space.paired_layout(rng, dx, **lay))
         if spec.hilbert:
@@ -158,7 +165,8 @@ def draw_system(rng, seed: int, prop: str, *, families=("single",) * 6 + ("cross
             params["n_pca_modes"] = ["all", "all"]
             params["n_modes"] = max(2, min(5, rk[0], rk[1]))
     cfg["rot_params"] = models.draw_rotator_params(rng, params, lazy=lazy if lazy else None) if spec.rotator else None
-    cfg["boot_params"] = {"n_bootstraps": rng.randint(2, 4), "seed": rng.randrange(1000)} if name == "EOF" and not lazy else None
+    # (bootstrap members are reproducible "to solver accuracy" only - C20 - so they stay in the exact regime)
+    cfg["boot_params"] = {"n_bootstraps": rng.randint(2, 4), "seed": rng.randrange(1000)} if name == "EOF" and not lazy and not wide else None
     cfg["sched"] = sched.Config(W=rng.choice([1, 1, 2, 3, 4, 8]), reexec=rng.choice([0, 0, 0.05, 0.15]),
                                 transient=rng.choice([0, 0, 0.05]), stall=rng.choice([0, 0.1]),
                                 purity=1.0).to_json()
